@@ -6,7 +6,37 @@ import (
 	"fmt"
 	"io"
 	"os"
+	"path/filepath"
+	"sort"
 )
+
+// ReadVectorDir reads every *.json file of a directory (one record per file,
+// written by JsonSerialize) in name order.
+func ReadVectorDir(dir string, fn func(n int, raw []byte) error) error {
+	names, err := filepath.Glob(filepath.Join(dir, "*.json"))
+	if err != nil {
+		return err
+	}
+	sort.Strings(names)
+	for i, p := range names {
+		raw, err := os.ReadFile(p)
+		if err != nil {
+			return err
+		}
+		if err := fn(i+1, raw); err != nil {
+			return fmt.Errorf("%s: %v", p, err)
+		}
+	}
+	return nil
+}
+
+// ReadAny reads a vector file, or a directory of per-record files.
+func ReadAny(path string, fn func(n int, raw []byte) error) error {
+	if st, err := os.Stat(path); err == nil && st.IsDir() {
+		return ReadVectorDir(path, fn)
+	}
+	return ReadVectors(path, fn)
+}
 
 // ReadVectors streams a file written by TLC with
 // CSVWrite("%1$s", <<ToJson(x)>>, file): every line is a JSON string whose
